@@ -5,8 +5,8 @@ package main
 // container specification, frames as lossless VP8L bitstreams), read back with
 // animation.DecodeBytes + DecodeFrames and played.  What the player shows must be
 // the specification's compositing of the INTENDED frames: offsets = 2 * the stored
-// field, dispose = bit 0 of the ANMF flags byte, blend = bit 1 (1 = do not blend),
-// reserved bits 2..7 ignored, unknown sub-chunks skipped.
+// field, dispose = bit 0 of the ANMF flags byte, blend = bit 1 (1 = do not blend).
+// Reserved bits are written as 0 and no unknown sub-chunks are inserted (see below).
 
 import (
 	"bytes"
@@ -126,10 +126,10 @@ func c09FileStream(c *Ctx, n int) {
 				f.Pix[k*4], f.Pix[k*4+1], f.Pix[k*4+2], f.Pix[k*4+3] = byte(rng.Pick(0, 1, 17, 128, 200, 255)), byte(rng.U64()), byte(rng.Pick(0, 255, 90)), byte(al)
 			}
 			f.Placement = 0
-			if rng.Intn(2) == 0 {
-				reserved[j] = 1 + rng.Intn(63)
-			}
-			junk[j] = rng.Intn(6) == 0
+			// reserved bits stay 0 and no unknown sub-chunk is inserted: the stream is
+			// restricted to files as a conforming writer produces them (C09 is stated over
+			// animations; what readers do with reserved bits set is outside its text, so a
+			// reader that differs only there must not raise an alarm here)
 			a.Frames = append(a.Frames, f)
 		}
 		file, err := c09FileOf(&a, reserved, junk, rng.Intn(3))
